@@ -1,7 +1,8 @@
 /-
   Props/C08.lean — C08: position maps and mappings obey the documented mapping algebra.
 
-  Property theorems only (helper lemmas live in Proofs/Map.lean).  Coordinates of range `i` of a
+  Property theorems only (helper lemmas live in Proofs/Map.lean, MapMirror.lean, MapAlgebra.lean,
+  MapCompose.lean, MirrorTable.lean).  Coordinates of range `i` of a
   map are given in closed form by prefix sums (`quad`), independently of the scanning loop of
   `StepMap._map`; the theorems say the loop computes exactly the documented rule over them.
 -/
